@@ -2,7 +2,7 @@ CONSTANTS
   Files = {1, 2, 3, 4}
   MaxFiles = 3
   Cmds = {"scan", "fix", "stdin", "list_some", "list_none", "scan_missing", "fix_missing"}
-  SchemeSels = {"none", "arg_minimal"}
+  SchemeSels = {"none", "arg_minimal", "cfg_minimal"}
   Cfgs = {"ok"}
   Kinds = {"clean", "trig", "fixable", "perr", "undec"}
   CoeVals = {TRUE, FALSE}
